@@ -24,6 +24,11 @@ fn valid_heads(ctx: &mut Ctx) -> Vec<Vec<u8>> {
         "POST /upload.html HTTP/1.1\r\nHost: speed.example\r\nContent-Length: 5\r\n\r\n".into(),
         "GET / HTTP/1.0\r\nHost: h\r\n\r\n".into(),
         "OPTIONS * HTTP/1.1\r\nHost: h\r\n\r\n".into(),
+        // line ends without the CR (the parser takes them): all of them, the last one only, the first one only, no header at all
+        "CONNECT example.org:443 HTTP/1.1\nHost: example.org:443\n\n".into(),
+        "CONNECT example.org:443 HTTP/1.1\r\nHost: example.org:443\r\n\n".into(),
+        "GET http://example.org/x HTTP/1.1\nHost: example.org\r\nAccept: */*\r\n\r\n".into(),
+        "CONNECT a.example:1 HTTP/1.1\n\n".into(),
     ];
     // many headers (up to the limit), long values
     let mut h = String::from("CONNECT a.example:1 HTTP/1.1\r\n");
@@ -234,7 +239,8 @@ pub fn run(mut ctx0: Ctx) {
                     }
                     // the request is the same for every segmentation: compare with an independent reading of the head
                     let head = String::from_utf8_lossy(&stream[..hl]).to_string();
-                    let mut lines = head.split("\r\n");
+                    // (a line ends with LF, with or without a CR in front of it)
+                    let mut lines = head.split('\n').map(|l| l.strip_suffix('\r').unwrap_or(l));
                     let rl: Vec<&str> = lines.next().unwrap().split(' ').collect();
                     if obs.method != rl[0] {
                         ctx.oracle_failure("request_differs", &format!("method {:?} for head {:?}", obs.method, head));
